@@ -58,14 +58,11 @@ Definition norm_case (o : @order FN) (scale eps : float) (reg te ee training as_
 
 (* ---------- numeric hooks, one run opportunity on the observed current value ----------
    result: [error option; dtype; value].  Normalization of a non-floating tensor: vector_norm raises RuntimeError. *)
-Definition clamp_step (lo hi : option (float * bool)) (dt : nat) (fire : bool) (data : list (list float)) : tree :=
-  if fire then
-    Nd [ser_option ser_err None; ser_nat (clamp_dtype dt (option_map snd lo) (option_map snd hi));
-        ser_tensor (clamp_kernel FN (option_map fst lo) (option_map fst hi) data)]
-  else Nd [ser_option ser_err None; ser_nat dt; ser_tensor data].
-Definition norm_step (o : @order FN) (scale eps : float) (dt : nat) (fire : bool) (data : list (list float)) : tree :=
-  if fire then
-    if is_float_dt dt then
-      Nd [ser_option ser_err None; ser_nat dt; ser_tensor (normalize_fibres FN o scale eps data)]
-    else Nd [ser_option ser_err (Some ERuntime); ser_nat dt; ser_tensor data]
-  else Nd [ser_option ser_err None; ser_nat dt; ser_tensor data].
+Definition ser_step (dt : nat) (r : list (list float) * option err) : tree :=
+  Nd [ser_option ser_err (snd r); ser_nat dt; ser_tensor (fst r)].
+Definition clamp_step (bare : bool) (lo hi : option (float * bool)) (dt : nat) (fire : bool) (data : list (list float)) : tree :=
+  let r := hook_step_target FN bare (clamp_kernel FN (option_map fst lo) (option_map fst hi)) fire data in
+  ser_step (if fire && negb bare then clamp_dtype dt (option_map snd lo) (option_map snd hi) else dt) r.
+Definition norm_step (bare : bool) (o : @order FN) (scale eps : float) (dt : nat) (fire : bool) (data : list (list float)) : tree :=
+  if fire && negb (is_float_dt dt) then ser_step dt (data, Some ERuntime)       (* vector_norm raises first *)
+  else ser_step dt (hook_step_target FN bare (normalize_fibres FN o scale eps) fire data).
